@@ -324,6 +324,22 @@ Definition valid_order (values : list Q) (failed : list bool) (idx : list nat) :
   Permutation idx (successes failed) /\
   forall i j, (i < j < length idx)%nat -> nth (nth i idx 0%nat) values 0 <= nth (nth j idx 0%nat) values 0.
 
+(* the vector _sort_and_select builds from ANY ranking idx (sort_and_select is this along the model's ranking) *)
+Definition select_along (idx : list nat) (cfgw : list Q) (first last : nat) : list Q :=
+  let sel := window first last idx in
+  assign sel (map (fun i => nth i cfgw 0) sel) (zeros (length cfgw)).
+
+(* the vector _get_cvar_weights_from_percentile builds from ANY ranking idx of n = length idx successes *)
+Definition cvar_along (p : Q) (idx : list nat) (size : nat) : list Q :=
+  let n := length idx in
+  if Nat.eqb n 0 then zeros size
+  else
+    let p_max := 1 / nq n in
+    let n_var := Z.to_nat (qfloor (p * nq n)) in
+    let p_var := Qmax (p - nq n_var * p_max) 0 in
+    let w := assign (firstn n_var idx) (repeat p_max n_var) (zeros size) in
+    if Nat.ltb n_var n then assign [nth n_var idx 0%nat] [p_var] w else w.
+
 (* the CVaR staircase as a function of the rank k (n successes, percentile p) *)
 Definition stair_m (p : Q) (n : nat) : nat := Z.to_nat (qfloor (p * nq n)).
 Definition stair (p : Q) (n k : nat) : Q :=
@@ -498,7 +514,7 @@ Definition e2e_has_ties (c : e2e_case) : bool :=
              end)
           (combine (seq 0 (length (x_filters c))) (x_filters c)).
 
-Definition rows_ok (c : e2e_case) (objs : list (list oQ)) (cns : option (list (list oQ)))
+Definition rows_ok_gen (cfg : config) (filters : list method) (objs : list (list oQ)) (cns : option (list (list oQ)))
     (fmap : option (list Z)) (count : nat) (obs model : option matrix) : bool :=
   match obs, model with
   | None, None => true
@@ -508,14 +524,16 @@ Definition rows_ok (c : e2e_case) (objs : list (list oQ)) (cns : option (list (l
                   match fmap with
                   | None => false
                   | Some fm =>
-                      match znth (nth j fm (-1)%Z) (x_filters c) with
-                      | Some m => weights_ok (x_cfg c) m objs cns row
-                      | None => list_eqb Qeqb row (c_rw (x_cfg c))
+                      match znth (nth j fm (-1)%Z) filters with
+                      | Some m => weights_ok cfg m objs cns row
+                      | None => list_eqb Qeqb row (c_rw cfg)
                       end
                   end && forallb2 (close 1) row (nth j mm []))
                (seq 0 count) om
   | _, _ => false
   end.
+
+Definition rows_ok (c : e2e_case) := rows_ok_gen (x_cfg c) (x_filters c).
 
 Definition values_ok (S : Q) (obs model : list oQ) : bool := forallb2 (oclose S) obs model.
 
@@ -543,4 +561,300 @@ Definition e2e_ok (c : e2e_case) : bool :=
         | _, _ => false
         end
     | _, _ => false
+    end.
+
+(* ==== gradients and request sequences on ONE EnsembleEvaluator ================================================
+   calculate(x, compute_functions, compute_gradients) issued repeatedly on the same object: function-only requests
+   fill _cache_for_gradient, a gradient-only request at the cached point re-uses the cached function result and its
+   weight matrices (_calculate_gradients), every other gradient request evaluates functions and perturbations
+   together (_calculate_both) and clears the cache.  One optimisation variable; the user's evaluator is affine
+   around each point, so the gradient of realization r of function j is the slope table entry (the least-squares
+   estimate is exact for one variable and at least one successful perturbation). *)
+Record point := {
+  pt_objs : list (list oQ);            (* per realization: the objectives returned for the unperturbed vector *)
+  pt_cons : option (list (list oQ));
+  pt_oslope : list (list Q);           (* per realization: d objective_j / dx *)
+  pt_cslope : list (list Q);
+  pt_pfail : list (list bool)          (* per realization, per perturbation: the perturbed evaluation has a NaN *)
+}.
+
+Record gresult := {
+  g_failed : list bool;
+  g_ow : option matrix;
+  g_cw : option matrix;
+  g_gradients : option (list oQ * option (list oQ))     (* None: below realization_min_success *)
+}.
+
+Inductive result := RFun (e : evaluation) | RGrad (g : gresult).
+Inductive request := ReqF (k : nat) | ReqG (k : nat) | ReqFG (k : nat).
+
+Record senv := {
+  s_cfg : config;
+  s_filters : list method;
+  s_ofm : option (list Z);
+  s_cfm : option (list Z);
+  s_rmin : nat;                        (* realization_min_success *)
+  s_pmin : nat;                        (* perturbation_min_success *)
+  s_points : list point
+}.
+
+Definition req_point (rq : request) : nat := match rq with ReqF k | ReqG k | ReqFG k => k end.
+
+(* _get_failed_realizations with perturbations: failed |= #successful perturbations < perturbation_min_success *)
+Definition grad_failed (pmin : nat) (failed : list bool) (pfail : list (list bool)) : list bool :=
+  map (fun fp : bool * list bool => fst fp || Nat.ltb (count_ok (snd fp)) pmin) (combine failed pfail).
+
+Definition somes (m : list (list Q)) : list (list oQ) := map (map (@Some Q)) m.
+
+(* the GradientResults built from the function evaluation e of the same point: the weight matrices are e's, the
+   gradient of function j is the mean estimator applied to the slopes with row j (failed realizations zeroed) *)
+Definition gradient_result (env : senv) (e : evaluation) (pt : point) : gresult :=
+  let cfg := s_cfg env in
+  let fg := grad_failed (s_pmin env) (e_failed e) (pt_pfail pt) in
+  {| g_failed := fg; g_ow := e_ow e; g_cw := e_cw e;
+     g_gradients :=
+       if Nat.ltb (count_ok fg) (s_rmin env) then None
+       else Some (estimate cfg (e_ow e) fg (length (c_ow cfg)) (somes (pt_oslope pt)),
+                  option_map (fun _ => estimate cfg (e_cw e) fg (length (c_lower cfg)) (somes (pt_cslope pt)))
+                             (pt_cons pt)) |}.
+
+Definition eval_point (env : senv) (k : nat) : outcome (point * evaluation) :=
+  match nth_error (s_points env) k with
+  | None => Raise "IndexError"
+  | Some pt =>
+      match evaluate (s_cfg env) (s_filters env) (s_ofm env) (s_cfm env) (s_rmin env) (pt_objs pt) (pt_cons pt) with
+      | Ok e => Ok (pt, e)
+      | Abort c => Abort c
+      | Raise s => Raise s
+      end
+  end.
+
+Definition cache := option (nat * evaluation).
+
+(* _calculate_both: the cache is cleared first *)
+Definition calc_both (env : senv) (k : nat) : cache * outcome (list result) :=
+  match eval_point env k with
+  | Ok (pt, e) => (None, Ok [RFun e; RGrad (gradient_result env e pt)])
+  | Abort c => (None, Abort c)
+  | Raise s => (None, Raise s)
+  end.
+
+(* one call of calculate *)
+Definition calc (env : senv) (ch : cache) (rq : request) : cache * outcome (list result) :=
+  match rq with
+  | ReqF k =>
+      match eval_point env k with
+      | Ok (_, e) => (Some (k, e), Ok [RFun e])
+      | Abort c => (ch, Abort c)          (* the exception leaves the cache as it was *)
+      | Raise s => (ch, Raise s)
+      end
+  | ReqG k =>
+      match ch with
+      | Some (k', e) =>
+          if Nat.eqb k k' then
+            match nth_error (s_points env) k with
+            | Some pt => (ch, Ok [RGrad (gradient_result env e pt)])
+            | None => (ch, Raise "IndexError")
+            end
+          else calc_both env k
+      | None => calc_both env k
+      end
+  | ReqFG k => calc_both env k
+  end.
+
+(* the caller keeps calling after an exception (direct use of the evaluator object) *)
+Fixpoint run_direct (env : senv) (ch : cache) (reqs : list request) : list (outcome (list result)) :=
+  match reqs with
+  | [] => []
+  | rq :: rest => let (ch', out) := calc env ch rq in out :: run_direct env ch' rest
+  end.
+
+(* EnsembleOptimizer._run_evaluations: results without functions / gradients, or (realization_min_success < 1 and
+   an optimizer that cannot handle NaN) results in which every realization failed, end the step *)
+Definition step_finished : Z := exit_code "OPTIMIZER_STEP_FINISHED".
+Definition evaluation_finished : Z := exit_code "EVALUATION_STEP_FINISHED".
+
+Definition result_stops (env : senv) (allow_nan : bool) (r : result) : bool :=
+  let chk := Nat.ltb (s_rmin env) 1 && negb allow_nan in
+  match r with
+  | RFun e => is_none (e_functions e) || (chk && all_failed (e_failed e))
+  | RGrad g => is_none (g_gradients g) || (chk && all_failed (g_failed g))
+  end.
+
+(* an optimizer step whose optimizer issues the requests in order: (results delivered to the observers, exit code).
+   A filter that finds no positive weight aborts inside calculate: nothing is delivered for that request. *)
+Fixpoint run_step (env : senv) (allow_nan : bool) (ch : cache) (reqs : list request) : list (list result) * outcome Z :=
+  match reqs with
+  | [] => ([], Ok step_finished)
+  | rq :: rest =>
+      let (ch', out) := calc env ch rq in
+      match out with
+      | Ok rs =>
+          if existsb (result_stops env allow_nan) rs then ([rs], Ok too_few)
+          else let (d, c) := run_step env allow_nan ch' rest in (rs :: d, c)
+      | Abort c => ([], Ok c)
+      | Raise s => ([], Raise s)
+      end
+  end.
+
+(* an evaluator step: one function request *)
+Definition run_evalstep (env : senv) (k : nat) : list (list result) * outcome Z :=
+  match eval_point env k with
+  | Ok (_, e) => ([[RFun e]], Ok (if is_none (e_functions e) then too_few else evaluation_finished))
+  | Abort c => ([], Ok c)
+  | Raise s => ([], Raise s)
+  end.
+
+(* ---- specification vocabulary for request sequences -------------------------------------------------------- *)
+(* the gradient results of a fresh evaluation of point k *)
+Definition fresh_gradient (env : senv) (k : nat) : outcome gresult :=
+  match eval_point env k with
+  | Ok (pt, e) => Ok (gradient_result env e pt)
+  | Abort c => Abort c
+  | Raise s => Raise s
+  end.
+
+Definition fresh_function (env : senv) (k : nat) : outcome evaluation :=
+  match eval_point env k with
+  | Ok (_, e) => Ok e
+  | Abort c => Abort c
+  | Raise s => Raise s
+  end.
+
+(* the cache holds the function evaluation of the point it is labelled with *)
+Definition cache_ok (env : senv) (ch : cache) : Prop :=
+  match ch with Some (k, e) => fresh_function env k = Ok e | None => True end.
+
+
+(* ---- acceptance of an observed request sequence ------------------------------------------------------------- *)
+Inductive via := ViaCalculate | ViaStep (allow_nan : bool) | ViaEvalStep.
+
+Record seq_case := {
+  q_env : senv;
+  q_via : via;
+  q_reqs : list request;
+  q_S : Q;
+  q_answers : outcome (list (outcome (list result)));    (* ViaCalculate: one per request; Raise = construction failed *)
+  q_delivered : list (list result);                       (* steps: the result tuples of the FINISHED_EVALUATION events *)
+  q_exit : outcome Z                                      (* steps: exit code / exception class *)
+}.
+
+Definition point_has_ties (env : senv) (pt : point) : bool :=
+  let (objs, cns) := propagate_nan (pt_objs pt) (pt_cons pt) in
+  existsb (fun km : nat * method =>
+             in_use (s_ofm env) (s_cfm env) (Z.of_nat (fst km)) &&
+             match method_inputs (s_cfg env) (snd km) objs cns with
+             | Some (values, failed) => negb (distinct_keys values failed)
+             | None => false
+             end)
+          (combine (seq 0 (length (s_filters env))) (s_filters env)).
+
+Definition seq_has_ties (c : seq_case) : bool := existsb (point_has_ties (q_env c)) (s_points (q_env c)).
+
+Definition ovalues_ok (S : Q) (obs model : option (list oQ * option (list oQ))) : bool :=
+  match obs, model with
+  | None, None => true
+  | Some (fo, co), Some (fm, cm) =>
+      values_ok S fo fm &&
+      match co, cm with
+      | None, None => true
+      | Some a, Some b => values_ok S a b
+      | _, _ => false
+      end
+  | _, _ => false
+  end.
+
+Definition weights_match (env : senv) (pt : point) (oow ocw mow mcw : option matrix) : bool :=
+  let cfg := s_cfg env in
+  let (objs, cns) := propagate_nan (pt_objs pt) (pt_cons pt) in
+  rows_ok_gen cfg (s_filters env) objs cns (s_ofm env) (length (c_ow cfg)) oow mow &&
+  rows_ok_gen cfg (s_filters env) objs cns (s_cfm env) (length (c_lower cfg)) ocw mcw.
+
+Definition result_ok (env : senv) (S : Q) (pt : point) (obs model : result) : bool :=
+  match obs, model with
+  | RFun oe, RFun me =>
+      list_eqb Bool.eqb (e_failed oe) (e_failed me) &&
+      weights_match env pt (e_ow oe) (e_cw oe) (e_ow me) (e_cw me) &&
+      ovalues_ok S (e_functions oe) (e_functions me)
+  | RGrad og, RGrad mg =>
+      list_eqb Bool.eqb (g_failed og) (g_failed mg) &&
+      weights_match env pt (g_ow og) (g_cw og) (g_ow mg) (g_cw mg) &&
+      ovalues_ok S (g_gradients og) (g_gradients mg)
+  | _, _ => false
+  end.
+
+Definition results_ok (env : senv) (S : Q) (k : nat) (obs model : list result) : bool :=
+  match nth_error (s_points env) k with
+  | Some pt => forallb2 (result_ok env S pt) obs model
+  | None => false
+  end.
+
+Definition answer_ok (env : senv) (S : Q) (k : nat) (obs model : outcome (list result)) : bool :=
+  match obs, model with
+  | Ok a, Ok b => results_ok env S k a b
+  | Abort a, Abort b => Z.eqb a b
+  | Raise a, Raise b => String.eqb a b
+  | _, _ => false
+  end.
+
+(* the points of the requests whose results were delivered, in order *)
+Fixpoint delivered_points (env : senv) (allow_nan : bool) (ch : cache) (reqs : list request) : list nat :=
+  match reqs with
+  | [] => []
+  | rq :: rest =>
+      let (ch', out) := calc env ch rq in
+      match out with
+      | Ok rs => req_point rq :: (if existsb (result_stops env allow_nan) rs then []
+                                  else delivered_points env allow_nan ch' rest)
+      | _ => []
+      end
+  end.
+
+Definition exit_ok (obs model : outcome Z) : bool :=
+  match obs, model with
+  | Ok a, Ok b => Z.eqb a b
+  | Raise a, Raise b => String.eqb a b
+  | _, _ => false
+  end.
+
+Definition delivered_ok (env : senv) (S : Q) (pts : list nat) (obs model : list (list result)) : bool :=
+  Nat.eqb (length obs) (length model) && Nat.eqb (length pts) (length model) &&
+  forallb2 (fun (k : nat) (om : list result * list result) => results_ok env S k (fst om) (snd om))
+           pts (combine obs model).
+
+Definition seq_ok (c : seq_case) : bool :=
+  if seq_has_ties c then true
+  else
+    let env := q_env c in
+    match create_all (s_cfg env) (s_filters env) with
+    | Raise s =>
+        match q_via c with
+        | ViaCalculate => match q_answers c with Raise s' => String.eqb s s' | _ => false end
+        | _ => match q_exit c with Raise s' => String.eqb s s' | _ => false end
+        end
+    | Abort _ => false
+    | Ok _ =>
+        match q_via c with
+        | ViaCalculate =>
+            match q_answers c with
+            | Ok obs =>
+                forallb2 (fun (rq : request) (om : outcome (list result) * outcome (list result)) =>
+                            answer_ok env (q_S c) (req_point rq) (fst om) (snd om))
+                         (q_reqs c) (combine obs (run_direct env None (q_reqs c))) &&
+                Nat.eqb (length obs) (length (q_reqs c))
+            | _ => false
+            end
+        | ViaStep allow_nan =>
+            let (d, code) := run_step env allow_nan None (q_reqs c) in
+            exit_ok (q_exit c) code &&
+            delivered_ok env (q_S c) (delivered_points env allow_nan None (q_reqs c)) (q_delivered c) d
+        | ViaEvalStep =>
+            match q_reqs c with
+            | [ReqF k] =>
+                let (d, code) := run_evalstep env k in
+                exit_ok (q_exit c) code &&
+                delivered_ok env (q_S c) (map (fun _ => k) d) (q_delivered c) d
+            | _ => false
+            end
+        end
     end.
